@@ -301,6 +301,25 @@ h4v_stream_writable(int id)
     return (id >= 0 && id < MAXSTREAM) ? swr[id] : 0;
 }
 
+
+/* ---------------------------------------------------------------- atom counter (specs/Atoms.tla, action Burn)
+ * n register/remove pairs of a throwaway object in one atom group: what n acquire/release pairs of any identifier of
+ * that group do to the group's counter, without the file I/O.  Returns the number of pairs done (stops on failure). */
+extern int   HAregister_atom(int grp, void *object);
+extern void *HAremove_atom(int atm);
+unsigned long
+h4v_burn_atoms(int grp, unsigned long n)
+{
+    static int    dummy;
+    unsigned long i;
+    for (i = 0; i < n; i++) {
+        int t = HAregister_atom(grp, &dummy);
+        if (t == -1 || HAremove_atom(t) == NULL)
+            break;
+    }
+    return i;
+}
+
 /* ---------------------------------------------------------------- coverage build only (bin/build_lib.sh <dir> cov) */
 #ifdef H4V_COV
 extern void __gcov_dump(void);
